@@ -121,9 +121,11 @@ func populateLabels(lset labels.Labels, cfg *config.ScrapeConfig) (res, orig lab
 }
 
 // targetsFromGroup builds activeTargets based on the given TargetGroup and config.
+// the valid targets are returned together with the last error if some instances are invalid.
 func targetsFromGroup(tg *targetgroup.Group, cfg *config.ScrapeConfig) ([]*SDTargets, error) {
 	targets := make([]*SDTargets, 0, len(tg.Targets))
 	exists := map[uint64]bool{}
+	var failure error
 
 	for i, tlset := range tg.Targets {
 		lbls := make([]labels.Label, 0, len(tlset)+len(tg.Labels))
@@ -141,7 +143,9 @@ func targetsFromGroup(tg *targetgroup.Group, cfg *config.ScrapeConfig) ([]*SDTar
 
 		lbls, origLabels, err := populateLabels(lset, cfg)
 		if err != nil {
-			return nil, errors.Wrapf(err, "instance %d in group %s", i, tg)
+			// same as prometheus: an invalid instance must not drop the other targets of its group
+			failure = errors.Wrapf(err, "instance %d in group %s", i, tg)
+			continue
 		}
 
 		if lbls != nil || origLabels != nil {
@@ -161,7 +165,7 @@ func targetsFromGroup(tg *targetgroup.Group, cfg *config.ScrapeConfig) ([]*SDTar
 			})
 		}
 	}
-	return targets, nil
+	return targets, failure
 }
 
 func targetHash(lbls labels.Labels, url string) uint64 {
